@@ -1,4 +1,5 @@
-(* slice::binary_search_by, as std writes it (a loop over left/right with mid = left + (right-left)/2), against the linear scan the
+(* slice::binary_search_by, both as std wrote it up to Rust 1.81 (a loop over left/right with mid = left + (right-left)/2; bs) and as it has written it
+   since 1.82 (size halves, base moves unless the probe says Greater, one final comparison; bs2loop, below), against the linear scan the
    model uses: on a list that is monotone for the probe they return the same result, for lists of any length. *)
 From Coq Require Import List Arith NArith Bool Lia Sorted.
 From Coq.Strings Require Import Byte.
@@ -134,3 +135,68 @@ Proof.
   rewrite binary_search_is_linear by (apply QInv_Mono; assumption). symmetry. apply lin_search_from.
 Qed.
 End QS.
+
+(* the loop std has used since Rust 1.82 (the toolchain here is 1.95): size halves, base moves unless the probe says Greater, one final comparison *)
+Section BS2. Context {A : Type} (c : A -> comparison) (d : A).
+Fixpoint bs2loop (fuel : nat) (l : list A) (size base : nat) : nat :=
+  match fuel with O => base
+  | S f => if 1 <? size then
+             let half := size / 2 in let mid := base + half in
+             bs2loop f l (size - half) (match c (nth mid l d) with Gt => base | _ => mid end)
+           else base end.
+Definition binary_search_by2 (l : list A) : sres :=
+  match l with [] => NotFound 0
+  | _ => let b := bs2loop (length l) l (length l) 0 in
+         match c (nth b l d) with Eq => Found b | Lt => NotFound (b + 1) | Gt => NotFound b end end.
+
+Lemma bs2loop_inv l : Mono c d l -> forall fuel size base, 1 <= size -> size <= fuel + 1 -> base + size <= length l ->
+  (forall j, j < base -> c (nth j l d) = Lt) -> (forall j, base + size <= j -> j < length l -> c (nth j l d) = Gt) ->
+  let b := bs2loop fuel l size base in
+  b < length l /\ (forall j, j < b -> c (nth j l d) = Lt) /\ (forall j, b + 1 <= j -> j < length l -> c (nth j l d) = Gt).
+Proof.
+  intros M. induction fuel as [|f IH]; intros size base H1 Hf Hb Hlo Hhi; cbn [bs2loop].
+  - assert (size = 1) by lia. subst. cbv zeta. split; [lia|]. split; [exact Hlo|]. intros j Hj1 Hj2. apply Hhi; lia.
+  - destruct (1 <? size) eqn:E1.
+    + apply Nat.ltb_lt in E1. cbv zeta.
+      assert (Hh : 1 <= size / 2 /\ size / 2 + size / 2 <= size).
+      { assert (X := Nat.div_mod size 2 ltac:(lia)). assert (Y := Nat.mod_upper_bound size 2 ltac:(lia)). lia. }
+      destruct (c (nth (base + size / 2) l d)) eqn:Ec.
+      * apply IH; try lia.
+        -- intros j Hj. destruct (c (nth j l d)) eqn:Ej; [|reflexivity|];
+           (destruct (Nat.lt_ge_cases j base) as [L|L]; [rewrite (Hlo j L) in Ej; discriminate|]);
+           assert (G := M j (base + size / 2) ltac:(lia) ltac:(lia)); rewrite Ej in G; rewrite G in Ec; discriminate.
+        -- intros j Hj1 Hj2. apply Hhi; lia.
+      * apply IH; try lia.
+        -- intros j Hj. destruct (c (nth j l d)) eqn:Ej; [|reflexivity|];
+           (destruct (Nat.lt_ge_cases j base) as [L|L]; [rewrite (Hlo j L) in Ej; discriminate|]);
+           assert (G := M j (base + size / 2) ltac:(lia) ltac:(lia)); rewrite Ej in G; rewrite G in Ec; discriminate.
+        -- intros j Hj1 Hj2. apply Hhi; lia.
+      * apply IH; try lia; [exact Hlo|]. intros j Hj1 Hj2.
+        destruct (Nat.eq_dec j (base + size / 2)) as [->|N]; [exact Ec|].
+        apply (M (base + size / 2) j); [lia|exact Hj2|rewrite Ec; discriminate].
+    + apply Nat.ltb_ge in E1. assert (size = 1) by lia. subst. cbv zeta. split; [lia|]. split; [exact Hlo|]. intros j Hj1 Hj2. apply Hhi; lia.
+Qed.
+
+Theorem binary_search2_is_linear l : Mono c d l -> binary_search_by2 l = lin c l 0.
+Proof.
+  intros M. apply (Res_unique c d l); [exact M| |apply lin_res; exact M].
+  unfold binary_search_by2. destruct l as [|x t] eqn:El; [cbn; split; [lia|]; split; intros j H; [lia|intros H2; cbn in H2; lia]|].
+  rewrite <- El in *. assert (Hlen : 1 <= length l) by (rewrite El; cbn; lia).
+  destruct (bs2loop_inv l M (length l) (length l) 0) as (Hb & Hlo & Hhi); [lia|lia|lia|intros j Hj; lia|intros j H1 H2; lia|].
+  cbv zeta. destruct (c (nth (bs2loop (length l) l (length l) 0) l d)) eqn:Ec; cbn [Res].
+  - split; [exact Hb|exact Ec].
+  - split; [lia|]. split; [|exact Hhi]. intros j Hj.
+    destruct (Nat.eq_dec j (bs2loop (length l) l (length l) 0)) as [->|N]; [exact Ec|apply Hlo; lia].
+  - split; [lia|]. split; [exact Hlo|]. intros j H1 H2.
+    destruct (Nat.eq_dec j (bs2loop (length l) l (length l) 0)) as [->|N]; [exact Ec|apply Hhi; lia].
+Qed.
+End BS2.
+
+Section QS2. Variable cfg : config.
+Theorem search_is_binary_search2 q m k : tbl_ascii_ok cfg = true -> key_special_ascii cfg = true -> QInv cfg q -> check_key cfg k = Ok m ->
+  search cfg q m = binary_search_by2 (probe cfg k) dkv q.
+Proof.
+  intros T1 T2 HQ Hm. destruct (into_key_lk cfg m k Hm) as (_ & Hmx & Hv). unfold search. rewrite Hmx.
+  rewrite binary_search2_is_linear by (apply QInv_Mono; assumption). symmetry. apply lin_search_from.
+Qed.
+End QS2.
